@@ -1,7 +1,9 @@
 /-
   QKV.Model.OpCount — qtools / estimate operation counts and the loop-nest specification.
 
-  Mirrors (as written, defects included)
+  Mirrors (as written, defects included; after the fix: commits 86c5631, 90baf03, 0e51e85, a151cef,
+  fff3a88 the defects left are the separable layers: no branch in `get_operation_count`, 1×1 stage
+  without its input channels in estimate.py)
     qkeras/qtools/qtools_util.py   : is_shape_alternation_layers, is_merge_layers, get_operation_count
     qkeras/estimate.py             : extract_model_operations  (`number_of_operations`)
   and states, independently of those formulas, what a layer really does for one sample:
@@ -48,8 +50,9 @@ def isShapeAlterationName (n : String) : Bool :=
 /-- the `if / elif` chain, in the order of the source -/
 def classify (n : String) : Branch :=
   if isMergeName n || isShapeAlterationName n then .elemwise
+  -- "QAveragePooling2D" joined the list with fix a151cef
   else if ["AveragePooling2D", "AvgPool2D", "GlobalAvgPool2D", "GlobalAveragePooling2D",
-           "QGlobalAveragePooling2D"].contains n then .avgPool
+           "QAveragePooling2D", "QGlobalAveragePooling2D"].contains n then .avgPool
   else if strIn "UpSampling" n then .upSampling
   else if strIn "Activation" n || strIn "BatchNormalization" n then .actBn
   else if ["QConv2D", "Conv2D", "QConv2DBatchnorm", "QConv2DTranspose", "Conv2DTranspose"].contains n
@@ -72,9 +75,21 @@ structure LayerInfo where
   groups : Nat := 1             -- getattr(layer, "groups", 1)
   deriving Repr, Inhabited
 
-/-- `np.max(shape)` over the non-`None` entries; `sum(shape > 1) <= 1` is the assertion -/
+/-- `sum(shape > 1) <= 1` over the non-`None` entries: the assertion of the dense branch -/
 def atMostOneBig (l : List Nat) : Bool := (l.filter (fun d => decide (1 < d))).length ≤ 1
+/-- `sum(shape > 1) == 1`: the assertion of estimate.py -/
+def exactlyOneBig (l : List Nat) : Bool := (l.filter (fun d => decide (1 < d))).length = 1
+/-- `np.max(shape)` (what the dense branches read before fix fff3a88; kept for the regression
+    witness) -/
 def maxL (l : List Nat) : Nat := l.foldr max 0
+
+/-- the dense formula shared by `get_operation_count` and estimate.py (fix fff3a88):
+    `np.prod(oshape[:-1]) * ishape[-1] * oshape[-1]` — the kernel contracts the LAST axis and is
+    applied once per position of the remaining output axes; `none` = indexing an empty shape -/
+def denseCount (inShape outShape : List Nat) : Option Nat :=
+  match inShape.getLast?, outShape.getLast? with
+  | some ni, some no => some (prodL outShape.dropLast * ni * no)
+  | _, _ => none
 
 /-- `get_operation_count`; `none` = the Python raises (tuple unpacking of a wrong rank, failed
     assertion, missing weights). -/
@@ -110,9 +125,8 @@ def opCountB (b : Branch) (L : LayerInfo) : Option Nat :=
     | [_, _, _], [ho, wo, co], [kh, kw, _, _] => some (kh * kw * ho * wo * co)
     | _, _, _ => none
   | .dense =>
-    if L.inShape.isEmpty || L.outShape.isEmpty then none
-    else if atMostOneBig L.inShape && atMostOneBig L.outShape then
-      some (maxL L.inShape * maxL L.outShape)
+    -- both assertions, then last axis × last axis × remaining positions     [fix fff3a88]
+    if atMostOneBig L.inShape && atMostOneBig L.outShape then denseCount L.inShape L.outShape
     else none
   | .other => some 0
 
@@ -136,18 +150,21 @@ def estOps (c : EstClass) (L : LayerInfo) : Option Nat :=
   match c with
   | .qconv2d =>
     match L.inShape, L.outShape, L.wShape with
-    | [_, _, ci], [ho, wo, co], [kh, kw, _, _] => some (ho * wo * co * kh * kw * ci)
+    -- each output channel only sees the input channels of its group      [fix 90baf03]
+    | [_, _, ci], [ho, wo, co], [kh, kw, _, _] => some (ho * wo * co * kh * kw * (ci / L.groups))
     | _, _, _ => none
   | .qconv1d =>
     match L.inShape, L.outShape, L.wShape with
-    | [_, ci], [to, co], [k, _, _] => some (to * co * k * ci)
+    | [_, ci], [to, co], [k, _, _] => some (to * co * k * (ci / L.groups))
     | _, _, _ => none
   | .qdepthwise =>
     match L.inShape, L.outShape, L.wShape with
-    | [_, _, ci], [ho, wo, _], [kh, kw, _, _] => some (kh * kw * ho * wo * ci)
+    -- channels_o = channels_i * depth_multiplier                          [fix 0e51e85]
+    | [_, _, _], [ho, wo, co], [kh, kw, _, _] => some (kh * kw * ho * wo * co)
     | _, _, _ => none
   | .qsepconv1d =>
     match L.inShape, L.outShape, L.wShape with
+    -- (not repaired: the 1×1 stage lacks `* channels_i`, depth_multiplier is ignored)
     | [_, ci], [to, co], [k, _, _] => some (k * to * ci + to * co)
     | _, _, _ => none
   | .qsepconv2d =>
@@ -155,9 +172,7 @@ def estOps (c : EstClass) (L : LayerInfo) : Option Nat :=
     | [_, _, ci], [ho, wo, co], [kh, kw, _, _] => some (kh * kw * ho * wo * ci + ho * wo * co)
     | _, _, _ => none
   | .qdense =>
-    if (L.inShape.filter (fun d => decide (1 < d))).length = 1
-        ∧ (L.outShape.filter (fun d => decide (1 < d))).length = 1 then
-      some (maxL L.inShape * maxL L.outShape)
+    if exactlyOneBig L.inShape && exactlyOneBig L.outShape then denseCount L.inShape L.outShape
     else none
 
 /-! ## the specification: sliding-window index model and loop nests -/
@@ -207,6 +222,11 @@ def depthwiseNest (posH posW : List Nat) (ci dm kh kw : Nat) :
 def denseNest (nIn units : Nat) : List (Nat × Nat) :=
   (List.range units).flatMap fun o => (List.range nIn).map fun i => (o, i)
 
+/-- dense on a `(batch, d_1, …, d_k, n_in)` input: the kernel is applied at each of the
+    `d_1 ⋯ d_k` positions of the leading axes: (position, output unit, input feature) -/
+def denseNestAt (npos nIn units : Nat) : List (Nat × Nat × Nat) :=
+  (List.range npos).flatMap fun q => (denseNest nIn units).map fun t => (q, t.1, t.2)
+
 /-- average pooling: one accumulate per (row, column, channel, window row, window column) -/
 def poolNest (posH posW : List Nat) (c ph pw : Nat) : List (Nat × Nat × Nat × Nat × Nat) :=
   posH.flatMap fun oy => posW.flatMap fun ox => (List.range c).flatMap fun ch =>
@@ -222,6 +242,8 @@ def macConv1d (p : Padding) (n k s d cig co : Nat) : Nat :=
 def macDepthwise (p : Padding) (h w kh kw sh sw dh dw ci dm : Nat) : Nat :=
   (depthwiseNest (positions p h kh sh dh) (positions p w kw sw dw) ci dm kh kw).length
 def macDense (nIn units : Nat) : Nat := (denseNest nIn units).length
+def macDenseAt (lead : List Nat) (nIn units : Nat) : Nat :=
+  (denseNestAt (prodL lead) nIn units).length
 def macAvgPool (p : Padding) (h w ph pw sh sw c : Nat) : Nat :=
   (poolNest (positions p h ph sh 1) (positions p w pw sw 1) c ph pw).length
 /-- global average pooling: a single output position whose window is the whole map -/
@@ -246,10 +268,9 @@ def conv1dInfo (p : Padding) (n k s d ci co groups : Nat) : LayerInfo :=
 def depthwiseInfo (p : Padding) (h w kh kw sh sw dh dw ci dm : Nat) : LayerInfo :=
   { inShape := [h, w, ci], outShape := [convOutLen p h kh sh dh, convOutLen p w kw sw dw, ci * dm],
     wShape := [kh, kw, ci, dm], poolSize := none }
-/-- dense on `(batch, 1, …, 1, n_in)`: `lead` ones before the feature axis -/
-def denseInfo (lead nIn units : Nat) : LayerInfo :=
-  { inShape := List.replicate lead 1 ++ [nIn], outShape := List.replicate lead 1 ++ [units],
-    wShape := [nIn, units], poolSize := none }
+/-- dense on `(batch, d_1, …, d_k, n_in)`: `lead = [d_1, …, d_k]` before the feature axis -/
+def denseInfo (lead : List Nat) (nIn units : Nat) : LayerInfo :=
+  { inShape := lead ++ [nIn], outShape := lead ++ [units], wShape := [nIn, units], poolSize := none }
 def avgPoolInfo (p : Padding) (h w ph pw sh sw c : Nat) : LayerInfo :=
   { inShape := [h, w, c], outShape := [convOutLen p h ph sh 1, convOutLen p w pw sw 1, c],
     wShape := [], poolSize := some [ph, pw] }
